@@ -60,6 +60,11 @@ CLAIMS = {
   text="Structural necessary conditions of crash containment, for all inputs: every dynamic call of a builtin function value is made in a frame with a deferred recover that does not re-panic (one tabled exception); on code reachable from the script-facing entry points without passing such a call, each explicit panic/panicOn, each single-result type assertion (unless dominated by a successful comma-ok test of the same value), each index/slice/make the compiler's prove pass cannot show in range, and each integer division is discharged by a keyed table row naming the invariant it rests on - any new such construct is reported; builtin-shaped functions and entry points cannot return (nil value, nil error); Stack.Get's underflow test dominates its element access, stack bookkeeping is written only by the stack primitives and TruncateToSize never grows; os.Exit/log.Fatal appear only in the exit builtin and the command driver; blocking channel operations reachable from scripts are reported (two recorded findings). Does not decide termination, nil dereference in general, or stack exhaustion by deep nesting.",
   note="Trusts go/ssa, the RTA graph, and the soundness of the Go compiler's bounds-check elimination listing (go build -gcflags=-d=ssa/check_bce, replayed from the build cache). 194 table rows (tables/C01.tsv) carry invariants established by reading; a 2M-input random smoke run during development (not part of the check) produced no escaping panic after the fixes.",
   ref="DESIGN.md §3 C01"),
+ "C06": dict(
+  technique="table extraction from the type-checked syntax tree (operator registrations, constructor recursion, climbing-loop condition, left-binding-power switch, lexer operator regex parsed with regexp/syntax) compared with the property's precedence table as an order relation",
+  text="Structural necessary conditions of the precedence table: each operator named by the property is registered in InitInfixOps with the constructor of its class (Assignment / Infixr for right-associative, Infix, Prefix for not), classes are uniform and strictly ordered assignment < comma < or/and < comparison < additive < multiplicative < power < not < indexing = field access; the constructors parse the right operand with bp or bp-1 as their associativity requires and record bp as the operator's left binding power; Pratt.Expression stops exactly when rbp >= LeftBindingPower(next); LeftBindingPower returns the registered power for operators, the index power for arrays and dotted symbols, the comma's own power, 0 for if; every registered operator spelled with operator characters is an alternative of the lexer's operator regex or has a dedicated lexer state. Does not decide +/- sign classification, statement splitting, go-style for lowering, if/else, or value equality with the prefix form.",
+  note="Trusts go/types constant evaluation and regexp/syntax. Renumbering binding powers is fine as long as the order holds.",
+  ref="DESIGN.md §3 C06"),
 }
 NA_DEFAULT="rules not built yet (build in progress; see DESIGN.md §7)"
 NA = {}
